@@ -256,6 +256,11 @@ def rotate_vector_around_an_axis(theta: float, axis: Vector, vec: Vector) -> Vec
     if axis.x != 0:
         beta = -axis.x/abs(axis.x)*math.acos(
             axis.z/math.sqrt(axis.x*axis.x + axis.z*axis.z))
+    elif axis.z < 0:
+        # axis anti-parallel to z: turn it onto +z (otherwise the rotation
+        # below would be about -axis, i.e. by -theta)
+        beta = math.pi
+    if beta != 0.0:
         rot_y = rotate_atoms_around_y_axis(beta)
         vec = rot_y @ vec
         axis = rot_y @ axis
